@@ -72,6 +72,34 @@ for depth in (1, 2, 3):
             leg.case(("dead", depth, calls), True)
             if stackscope.extract(g).frames:
                 leg.violation(("dead", depth, calls), "a dead greenlet yields frames")
+# call depth exactly ONE: the greenlet's run function itself is the frame that switches away (no caller inside the greenlet)
+def depth_one():
+    res = {}
+    def p_run():
+        child = greenlet.greenlet(c_run)
+        child.switch()                                   # suspended HERE (one frame) while the child asks about us
+        res["self"] = (stackscope.extract(greenlet.getcurrent()), [sys._getframe(0)])
+        greenlet.getcurrent().parent.switch()
+    def c_run():
+        res["from_child"] = stackscope.extract(box["p"])
+        res["child_self"] = (stackscope.extract(greenlet.getcurrent()), [sys._getframe(0)])
+    box = {}
+    box["p"] = greenlet.greenlet(p_run)
+    box["p"].switch()
+    res["from_main"] = stackscope.extract(box["p"])
+    box["p"].switch()
+    return res
+r1 = depth_one()
+for tag, want in (("from_child", ["p_run"]), ("from_main", ["p_run"])):
+    leg.case(("depth-one", tag), True)
+    st = r1[tag]
+    if names(st) != want or st.error is not None:
+        leg.violation(("depth-one", tag), f"greenlet whose only frame is its run function, asked {tag}: {names(st)} (expected {want}), error={st.error!r}")
+for tag in ("self", "child_self"):
+    leg.case(("depth-one", tag), True)
+    st, truth = r1[tag]
+    if [f.pyframe for f in st.frames] != truth or st.error is not None:
+        leg.violation(("depth-one", tag), f"current greenlet of call depth one ({tag}): {names(st)} is not exactly its own single frame, error={st.error!r}")
 g = greenlet.greenlet(lambda: None)
 leg.case("unstarted", True)
 if stackscope.extract(g).frames: leg.violation("unstarted", "an unstarted greenlet yields frames")
